@@ -84,6 +84,14 @@ def child_definition(kind, W):
                 {"StartAt": "Wt", "States": {"Wt": {"Type": "Wait", "Seconds": SLOW, "End": True}}},
                 {"StartAt": "C1", "States": {"C1": T("childslow", End=True)}}]},
             "C2": T("childfn2", End=True)}}
+    if kind == "slow_nested2":
+        # the child is blocked two Map/Parallel levels deep (a Wait and a Task inside a Parallel inside a Map iteration) when the parent lets go of it
+        inner = {"Type": "Parallel", "End": True, "Branches": [
+            {"StartAt": "Wt", "States": {"Wt": {"Type": "Wait", "Seconds": SLOW, "End": True}}},
+            {"StartAt": "C1", "States": {"C1": T("childslow", End=True)}}]}
+        return {"StartAt": "Mp", "States": {
+            "Mp": {"Type": "Map", "ItemsPath": "$.two", "Parameters": {"x.$": "$$.Map.Item.Value"}, "ResultPath": "$.m", "Next": "C2", "ItemProcessor": {"StartAt": "Par", "States": {"Par": inner}}},
+            "C2": T("childfn2", End=True)}}
     raise HarnessError("unknown child kind %r" % kind)
 
 
@@ -102,6 +110,8 @@ def child_result(kind, inp):
         return "SUCCEEDED", {"second": {"late": True}}
     if kind == "slow_nested":
         return "SUCCEEDED", {"second": [inp, {"late": True}]}
+    if kind == "slow_nested2":
+        return "SUCCEEDED", {"second": dict(inp, m=[[{"x": i}, {"late": True}] for i in inp["two"]])}
 
 
 def child_duration(sc):
@@ -702,7 +712,7 @@ def strategies():
         "form": st.sampled_from(["async", "sync", "sync", "sync2", "sync2", "sdk_sync"]),
         "parent_type": st.sampled_from(["STANDARD", "STANDARD", "STANDARD", "EXPRESS"]),
         "child_type": st.sampled_from(["STANDARD", "STANDARD", "EXPRESS"]),
-        "child": st.sampled_from(["succeed", "succeed", "two_step", "fail_task", "fail_state", "slow_wait", "slow_task", "slow_nested", "wait_then_slow_task", "fanout_then_slow_task", "slow_longform_task"]),
+        "child": st.sampled_from(["succeed", "succeed", "two_step", "fail_task", "fail_state", "slow_wait", "slow_task", "slow_nested", "wait_then_slow_task", "fanout_then_slow_task", "slow_longform_task", "slow_nested2"]),
         "child_exists": st.sampled_from([True] * 9 + [False]),
         "child_delay": st.sampled_from([0, 0.5, 3, 8]),
         "shape": st.sampled_from(["plain", "plain", "plain", "parallel", "parallel", "map"]),
@@ -745,6 +755,10 @@ def strategies():
 
 def fix_child(sc):
     sc = dict(sc)
+    if sc["child"] == "slow_nested2":
+        sc["child_input"] = {"two": [1, 2]}      # the child iterates over $.two
+        if sc["shape"] == "map":
+            sc["shape"] = "plain"                # (launched from a Map the child's input would be the parent's item)
     if sc["child"] == "fanout_then_slow_task" and not isinstance(sc["child_input"], dict):
         sc["child_input"] = {"a": 1}    # the child places its Parallel state's result under $.par: its input has to be an object
     if sc["shape"] == "map":
@@ -884,9 +898,9 @@ def main(tier, seed, replay=None):
     # directed: a synchronous child that is past an elapsed Wait and blocked on a Task when the parent lets go of it (time-out, failing sibling)
     for form in ("sync", "sync2", "sdk_sync"):
         for shape, extra_ in (("plain", {"timeout": 5}), ("parallel", {"timeout": None, "sib_ok": False, "sib_delay": 6}), ("parallel", {"timeout": 5, "sib_ok": True, "sib_delay": 0.25})):
-          for ckind in ("wait_then_slow_task", "fanout_then_slow_task", "slow_longform_task"):
+          for ckind in ("wait_then_slow_task", "fanout_then_slow_task", "slow_longform_task", "slow_nested2"):
             sc = dict({"family": "child", "form": form, "parent_type": "STANDARD", "child_type": "EXPRESS" if form == "sdk_sync" else "STANDARD", "child": ckind, "child_exists": True,
-                       "child_delay": 0, "shape": shape, "child_input": {"a": 1}, "name": None, "resource_region": "local", "schedule": []}, **extra_)
+                       "child_delay": 0, "shape": shape, "child_input": {"two": [1, 2]} if ckind == "slow_nested2" else {"a": 1}, "name": None, "resource_region": "local", "schedule": []}, **extra_)
             try:
                 fails = run_scenario(sc)
             except Exception as e:
